@@ -21,6 +21,8 @@ func main() {
 		switch os.Args[1] {
 		case "C10":
 			executorC10()
+		case "C13":
+			executorC13()
 		}
 		return
 	}
@@ -29,6 +31,8 @@ func main() {
 		mainC10()
 	case "C12":
 		mainC12()
+	case "C13":
+		mainC13()
 	default:
 		fmt.Printf("ENGINE-ERROR property=%s not handled by harness/chunks\n", os.Args[1])
 		os.Exit(2)
